@@ -301,15 +301,60 @@ func c11ErrorMap(c *Ctx) {
 	}
 	// the map literal
 	emap := map[string]string{}
-	ssax.Instrs(wer, func(in ssa.Instruction) {
-		if mu, ok := in.(*ssa.MapUpdate); ok {
-			k, ok1 := ssax.ConstString(mu.Key)
-			v, ok2 := ssax.ConstString(mu.Value)
-			if ok1 && ok2 {
-				emap[k] = v
+	collect := func(fn *ssa.Function, only ssa.Value) {
+		ssax.Instrs(fn, func(in ssa.Instruction) {
+			if mu, ok := in.(*ssa.MapUpdate); ok && (only == nil || ssax.Resolve(mu.Map) == only) {
+				k, ok1 := ssax.ConstString(mu.Key)
+				v, ok2 := ssax.ConstString(mu.Value)
+				if ok1 && ok2 {
+					emap[k] = v
+				}
+			}
+		})
+	}
+	collect(wer, nil)
+	if len(emap) == 0 {
+		// the table may live in a package-level variable initialised by a literal: the map consulted with the
+		// operation's type is a global whose only writer is the package initialiser
+		var glob *ssa.Global
+		ssax.Instrs(wer, func(in ssa.Instruction) {
+			if lk, ok := in.(*ssa.Lookup); ok && strings.HasSuffix(ssax.Path(lk.Index), "o.Type)") || ok && strings.HasSuffix(ssax.Path(lk.Index), "o.Type") {
+				if ld, ok := lk.X.(*ssa.UnOp); ok {
+					if g, ok := ld.X.(*ssa.Global); ok {
+						glob = g
+					}
+				}
+			}
+		})
+		if glob != nil && wer.Pkg != nil {
+			written := false
+			for f := range c.P.AllFuncs() {
+				if !load.InModule(f) || c.isTestFunc(f) {
+					continue
+				}
+				isInit := f == wer.Pkg.Func("init")
+				ssax.Instrs(f, func(in ssa.Instruction) {
+					switch x := in.(type) {
+					case *ssa.Store:
+						if x.Addr == ssa.Value(glob) {
+							if mm, ok := ssax.Resolve(x.Val).(*ssa.MakeMap); ok && isInit {
+								collect(f, mm)
+							} else {
+								written = true
+							}
+						}
+					case *ssa.MapUpdate:
+						if !isInit && strings.HasSuffix(ssax.Path(x.Map), "global:"+glob.Pkg.Pkg.Name()+"."+glob.Name()) {
+							written = true
+						}
+					}
+				})
+			}
+			if written {
+				r.Fail("C11/R3", "airgapped.writeErrorRequestToOperation:map:read-only", "the package-level error map is written only by its initialiser", c.Pos(glob.Pos()), "the map "+glob.Name()+" is modified outside the package initialiser")
 			}
 		}
-	})
+	}
 	if len(emap) < 5 {
 		r.Unknown("C11/R3", "airgapped.writeErrorRequestToOperation:map", "error map is a literal of constants", c.Pos(wer.Pos()), sprintf("%d constant entries", len(emap)))
 		return
